@@ -1215,7 +1215,10 @@ func (d *HAMTDirectory) needsToSwitchToBasicDir(ctx context.Context, name string
 }
 
 // countLinks makes totalLinks the real number of entries of a directory that
-// was loaded from an existing node, by enumerating it once.
+// was loaded from an existing node, by enumerating it once. The enumeration
+// also tells the real size: a directory that is sharded because of MaxLinks
+// may well be below the size threshold, so sizeChange (see there) is made
+// exact instead of relative to the unknown size at load time.
 func (d *HAMTDirectory) countLinks(ctx context.Context) error {
 	if !d.totalLinksRelative {
 		return nil
@@ -1223,6 +1226,10 @@ func (d *HAMTDirectory) countLinks(ctx context.Context) error {
 	ctx, cancel := context.WithCancel(ctx)
 	defer cancel()
 	n := 0
+	size := 0
+	if d.GetSizeEstimationMode() == SizeEstimationBlock {
+		size = dataFieldSerializedSize(d.mode, d.mtime)
+	}
 	linkResults := d.EnumLinksAsync(ctx)
 	for linkResult := range linkResults {
 		if linkResult.Err != nil {
@@ -1233,9 +1240,13 @@ func (d *HAMTDirectory) countLinks(ctx context.Context) error {
 			return linkResult.Err
 		}
 		n++
+		size += d.linkSizeFor(linkResult.Link)
 	}
 	d.totalLinks = n
 	d.totalLinksRelative = false
+	if shardingSize := d.getEffectiveShardingSize(); shardingSize > 0 {
+		d.sizeChange = size - (shardingSize + 1)
+	}
 	return nil
 }
 
